@@ -151,6 +151,30 @@ theorem config_text_to_no_bypass (src : Sources) (ok : Bool) (hpol : policyOf nu
   subst this
   exact no_bypass authOK rs tok method target i hran hint
 
+/-- **config_text_to_listener_separation** (configuration text -> bind table -> listeners): for ALL sources whose winning
+    values for `http.internal.address` and `http.public.address` are two distinct non-empty strings, `Configure` builds a
+    bind table under which every registration under /internal, /status, /health, /metrics (any letter case) goes to the
+    internal listener and nothing the public listener serves comes from such a registration -/
+theorem config_text_to_listener_separation (src : Sources) (c : HttpCfg) (_hload : loadHttpConfig nutsPrefix src = .ok c)
+    (hi : c.intAddr ≠ []) (hp : c.pubAddr ≠ []) (hne : c.pubAddr ≠ c.intAddr) (regs : List Registered) :
+    ∃ binds, configureBinds Facts.C04.internalBinds (String.ofList c.pubAddr) (String.ofList c.intAddr) = some binds ∧
+      (∀ g ∈ regs, getBindFromPath g.path ∈ Facts.C04.internalBinds → addrOf binds g.path = some (String.ofList c.intAddr)) ∧
+      (∀ route ∈ routesAt binds regs (String.ofList c.pubAddr), ∃ g ∈ regs, g.route = route ∧ getBindFromPath g.path ∉ Facts.C04.internalBinds) := by
+  have ne_of : ∀ l : Str, l ≠ [] → String.ofList l ≠ "" := by
+    intro l hl h
+    have := congrArg String.toList h
+    exact hl (by simpa using this)
+  have hne' : String.ofList c.pubAddr ≠ String.ofList c.intAddr := by
+    intro h
+    have := congrArg String.toList h
+    exact hne (by simpa using this)
+  have hb := configured_binds (String.ofList c.pubAddr) (String.ofList c.intAddr) (ne_of _ hp) (ne_of _ hi)
+  exact ⟨_, hb, internal_never_public _ _ (ne_of _ hp) (ne_of _ hi) hne' _ hb regs⟩
+
+/-- the addresses the theorem is about are the winning values of the two address keys (defaults 127.0.0.1:8081 / :8080 differ) -/
+example : (loadHttpConfig nutsPrefix { file := [], env := [], flags := [], defaults := [(httpKey "internal.address", "127.0.0.1:8081".toList), (httpKey "public.address", ":8080".toList)] }).toOption.map
+    (fun c => (c.intAddr, c.pubAddr)) = some ("127.0.0.1:8081".toList, ":8080".toList) := by decide
+
 /-- non-vacuity: a file says no auth, the environment says token_v2 -> token auth; the command line says "" -> no auth -/
 def exSrc (flags : List (Str × Str)) : Sources :=
   { file := [(authTypeKey, .str [])], env := [("NUTS_HTTP_INTERNAL_AUTH_TYPE".toList, "token_v2".toList)], flags := flags,
